@@ -158,4 +158,39 @@ theorem swapDir_adj (R : AMat Int n) (a b c d : Fin n)
   by_cases hia : i = a <;> by_cases hic : i = c <;> by_cases hjb : j = b <;> by_cases hjd : j = d <;>
     simp_all [Equiv.swap_apply_def]
 
+/-! ### decidable certificates for (non-)connectivity of concrete matrices -/
+
+/-- `p` is a walk from `x` to `y` along nonzero cells -/
+def walkOk (R : AMat Int n) : Fin n → List (Fin n) → Fin n → Bool
+  | x, [], y => x == y
+  | x, z :: p, y => (R.get x z != 0) && walkOk R z p y
+
+theorem walkOk_reach (R : AMat Int n) : ∀ (p : List (Fin n)) (x y : Fin n),
+    walkOk R x p y = true → ReflTransGen (adj R) x y := by
+  intro p
+  induction p with
+  | nil => intro x y h; simp only [walkOk, beq_iff_eq] at h; subst h; exact ReflTransGen.refl
+  | cons z p ih =>
+    intro x y h
+    simp only [walkOk, Bool.and_eq_true, bne_iff_ne, ne_eq] at h
+    exact ReflTransGen.head (show adj R x z from h.1) (ih z y h.2)
+
+/-- certificate of connectivity: walks from a hub to every node and back -/
+theorem conn_of_walks (R : AMat Int n) (h : Fin n) (fwd bwd : Fin n → List (Fin n))
+    (hw : ∀ v, walkOk R h (fwd v) v = true ∧ walkOk R v (bwd v) h = true) : Conn (adj R) :=
+  fun u v => (walkOk_reach R _ _ _ (hw u).2).trans (walkOk_reach R _ _ _ (hw v).1)
+
+/-- certificate of non-connectivity: a set closed under the adjacency that contains `u` but not `v` -/
+theorem not_conn_of_closed (R : AMat Int n) (S : Fin n → Bool) (u v : Fin n) (hu : S u = true) (hv : S v = false)
+    (hc : ∀ x y, S x = true → R.toFun x y ≠ 0 → S y = true) : ¬ Conn (adj R) := by
+  intro hconn
+  have key : ∀ y, ReflTransGen (adj R) u y → S y = true := by
+    intro y hy
+    induction hy with
+    | refl => exact hu
+    | tail _ hbc ih => exact hc _ _ ih hbc
+  have := key v (hconn u v)
+  rw [hv] at this
+  exact Bool.noConfusion this
+
 end Bct.RewireConn
